@@ -180,7 +180,25 @@ fn child_main() {
                 "schema" => {
                     // family C30, raw stream: the four views of the result schema
                     let sj = |s: &Schema| Value::Array(s.fields().iter().map(|f| json!([f.name(), format!("{}", f.data_type())])).collect());
-                    let plan = match ctx.physical_plan(&sql) { Ok(p) => sj(&p.schema()), Err(e) => json!({"err": cut(&e.to_string(), 160)}) };
+                    // Before the result boundary: drive the physical plan by hand and note whether any operator hands out a
+                    // dictionary-encoded array (ExecutionContext::sql casts those back to their value type).
+                    let mut pre_dict = false; let mut pre_batches = 0usize;
+                    let plan = match ctx.physical_plan(&sql) {
+                        Ok(p) => {
+                            let parts = p.output_partitions().max(1);
+                            for part in 0..parts {
+                                let got: std::result::Result<Vec<RecordBatch>, query_engine::QueryError> = rt.block_on(async {
+                                    use futures::TryStreamExt;
+                                    let st = p.execute(part).await?;
+                                    st.try_collect().await
+                                });
+                                if let Ok(bs) = got { for b in &bs { pre_batches += 1; if b.columns().iter().any(|c| matches!(c.data_type(), DataType::Dictionary(_, _))) { pre_dict = true; } } }
+                            }
+                            sj(&p.schema())
+                        }
+                        Err(e) => json!({"err": cut(&e.to_string(), 160)}),
+                    };
+                    let _ = pre_batches;
                     return match rt.block_on(async { ctx.sql(&sql).await }) {
                         Ok(q) => {
                             let mut bs: Vec<Value> = vec![]; let mut arrs: Vec<Value> = vec![];
@@ -188,7 +206,7 @@ fn child_main() {
                                 let s = sj(&b.schema()); if !bs.contains(&s) { bs.push(s); }
                                 let a = Value::Array(b.columns().iter().map(|c| json!(format!("{}", c.data_type()))).collect()); if !arrs.contains(&a) { arrs.push(a); }
                             }
-                            json!({"outcome":"ok","status":"ok","result":sj(&q.schema),"plan":plan,"batches":bs,"arrays":arrs,"nbatches":q.batches.len(),
+                            json!({"outcome":"ok","status":"ok","result":sj(&q.schema),"plan":plan,"batches":bs,"arrays":arrs,"nbatches":q.batches.len(),"pre_dict":pre_dict,
                                    "rows": q.batches.iter().map(|b| b.num_rows()).sum::<usize>()})
                         }
                         Err(e) => json!({"outcome":"err","status":"err","msg":cut(&e.to_string(), 160),"plan":plan}),
